@@ -237,6 +237,25 @@ func runInterrupt(function func()) {
 	function()
 }
 
+// exceptionText is the text of a thrown value that is not an Error object.
+// Its string conversion runs script code (toString / valueOf), which may throw
+// again; that must not escape from the handler that is reporting the first throw.
+func exceptionText(value Value) (text string) {
+	defer func() {
+		if caught := recover(); caught != nil {
+			switch caught := caught.(type) {
+			case interruptPanic:
+				panic(caught.value)
+			case *exception, ottoError, *Error, Value:
+				text = "uncaught exception (its conversion to a string threw)"
+			default:
+				panic(caught)
+			}
+		}
+	}()
+	return value.string()
+}
+
 func catchPanic(function func()) (err error) {
 	defer func() {
 		if caught := recover(); caught != nil {
@@ -260,7 +279,7 @@ func catchPanic(function func()) (err error) {
 						return
 					}
 				}
-				err = errors.New(caught.string())
+				err = errors.New(exceptionText(caught))
 				return
 			}
 			panic(caught)
